@@ -147,6 +147,54 @@ def run(ctx):
                ok, f'written by {sorted({qualname_of(fn) for _, fn, _ in runtime[q]})}; not cleared, not in the exemption table')
     ctx.floor('C14.R4', len(runtime), 9, 'run-time tables written from functions')
 
+    # ---- R12 ---------------------------------------------------------------------
+    ctx.rule('C14.R12', 'what a scope-dependent hint means is not memoised with the hint: every reducer under beartype/_check/convert '
+             'that resolves a hint through the current call (call_curr.resolve_hint_pep484_ref_str — the meaning depends on the '
+             'scope of the decorated callable) or reads the class stack returns sanified metadata built with the constant '
+             'is_check_expr_cacheable=False on every path — a cacheable forward reference is answered for the class it named when '
+             'first resolved (another module\'s, or the one a name was bound to before being rebound)')
+    n12 = 0
+    for mn, m in sorted(repo.modules.items()):
+        if not mn.startswith('beartype._check.convert._reduce'):
+            continue
+        for fn in [x for x in ast.walk(m.tree) if isinstance(x, ast.FunctionDef)]:
+            scope_dep = [c for c in walk_shallow(fn) if isinstance(c, ast.Call) and isinstance(c.func, ast.Attribute)
+                         and dotted(c.func.value) in ('call_curr', 'decor_curr') and c.func.attr.startswith('resolve_')]
+            scope_dep += [x for x in walk_shallow(fn) if isinstance(x, ast.Attribute) and x.attr == 'cls_stack' and dotted(x.value) in ('call_curr', 'decor_curr')]
+            if not scope_dep:
+                continue
+            makers = [c for c in walk_shallow(fn) if isinstance(c, ast.Call) and dotted(c.func).split('.')[-1] in ('make_hint_sane', 'HintSane')]
+            for c in makers:
+                n12 += 1
+                kw = {k.arg: k.value for k in c.keywords}
+                v = kw.get('is_check_expr_cacheable')
+                ctx.ob('C14.R12', f'scope-dependent:{mn.rsplit(".", 1)[-1]}.{qualname_of(fn)}', m.where(c),
+                       'metadata of a scope-dependent hint is never cacheable', isinstance(v, ast.Constant) and v.value is False,
+                       f'{norm(c)[:100]}')
+    ctx.floor('C14.R12', n12, 2, 'sanified-metadata constructions in scope-dependent reducers')
+
+    # ---- R11 ---------------------------------------------------------------------
+    ctx.rule('C14.R11', 'one memo table per memoised computation: no module-level name is bound to another module-level memo table '
+             '(NAME = OTHER_TABLE at module level, where OTHER_TABLE is a mutable container of the package) — two computations '
+             'sharing one table answer each other\'s questions whenever their keys meet (the tester cache of is_bearable aliased '
+             'to the raiser cache of die_if_unbearable)')
+    short = {q.rsplit('.', 1)[1]: q for q in tables}
+    n_alias = 0
+    for mn, m in sorted(repo.modules.items()):
+        for nm, sts in m.assigns.items():
+            for st in sts:
+                v = getattr(st, 'value', None)
+                if parent(st) is not m.tree or not isinstance(v, ast.Name) or v.id == nm:
+                    continue
+                r = repo.resolve_name(m, st, v.id)
+                q = f'{r.module}.{r.name}'
+                if q in tables:
+                    n_alias += 1
+                    ctx.ob('C14.R11', f'alias:{mn}.{nm}', m.where(st), 'a memo table is not an alias of another memo table', False,
+                           f'{nm} is bound to the table {q}')
+    ctx.ob('C14.R11', 'alias:module-level-tables-scanned', 'beartype/_util/cache/utilcacheclear.py:0',
+           f'{len(tables)} module-level containers scanned for aliases', len(tables) >= 15, f'{len(tables)} containers')
+
     # ---- R2 ----------------------------------------------------------------------
     ctx.rule('C14.R2', 'classification of every memo key: the value itself (equality) is fine; a key derived through '
              'repr()/str()/get_hint_repr()/__name__/__qualname__ is lossy, a violation when the cached value is '
